@@ -99,6 +99,12 @@ class Decl:
         self.perm = keys[:]
         rng.shuffle(self.perm)
         self.struct = "S%d" % idx
+        # one plain declaration in three is built through the static-metric register macro
+        # (register_static_<type>_vec!): the backing vector then lives in the default registry
+        self.via_register = (not auto_flush) and (not self.mtype.startswith("Local")) and rng.random() < 0.34
+        self.buckets = None
+        if self.via_register and self.mtype == "Histogram" and rng.random() < 0.7:
+            self.buckets = rng.choice([[0.5, 1.0, 2.5], [1.0], [-1.0, 0.0, 10.0, 1e9], [0.001, 0.002]])
 
     # ------------------------------------------------------------------
     def decl_src(self):
@@ -160,6 +166,11 @@ class Decl:
             dur = "std::time::Duration::from_millis(0)" if self.zero_interval else "std::time::Duration::from_secs(3600)"
             out.append("    let vec: &%s = &VEC;" % vt)
             out.append("    let m: %s = auto_flush_from!(VEC, %s, %s);" % (self.struct, self.struct, dur))
+        elif self.via_register:
+            macro = {"Counter": "counter", "IntCounter": "int_counter", "Gauge": "gauge", "IntGauge": "int_gauge", "Histogram": "histogram"}[self.mtype]
+            self.reg_name = "c19_reg_m%d" % self.idx
+            extra = (", vec![%s]" % ", ".join(repr(float(b)) for b in self.buckets)) if self.buckets else ""
+            out.append("    let m = register_static_%s_vec!(%s, %s, \"help\", &[%s]%s).unwrap();" % (macro, self.struct, rs_str(self.reg_name), perm, extra))
         else:
             out.append("    let vec = %s::new(%s, &[%s]).unwrap();" % (vt, opts, perm))
             out.append("    let m = %s::from(&vec);" % self.struct)
@@ -217,12 +228,18 @@ class Decl:
             pairs = ", ".join("(%s, %s)" % (rs_str(k), rs_str(v)) for k, v in zip(keys, tup))
             out.append("        (vec![%s], %d.0, %d)," % (pairs, s, c))
         out.append("    ];")
-        out.append("    crate::compare(r, %d, %s, vec.collect(), expected, %d);" % (self.idx, rs_str(base), npaths))
+        if getattr(self, "via_register", False):
+            bounds = ("Some(vec![%s])" % ", ".join(repr(float(b)) for b in self.buckets)) if self.buckets else "None"
+            out.append("    let fams: Vec<prometheus::proto::MetricFamily> = prometheus::gather().into_iter().filter(|f| f.name() == %s).collect();" % rs_str(self.reg_name))
+            out.append("    r.part.count(\"programs_through_register_static_macro\", 1);")
+            out.append("    crate::compare(r, %d, %s, fams, expected, %d, %s);" % (self.idx, rs_str(base), npaths, bounds))
+        else:
+            out.append("    crate::compare(r, %d, %s, vec.collect(), expected, %d, None);" % (self.idx, rs_str(base), npaths))
         out.append("}")
         return "\n".join(out)
 
     def describe(self):
-        return {"index": self.idx, "macro": "make_auto_flush_static_metric" if self.auto_flush else "make_static_metric", "type": self.mtype,
+        return {"index": self.idx, "macro": "make_auto_flush_static_metric" if self.auto_flush else "make_static_metric", "type": self.mtype, "built_through_register_static_macro": getattr(self, "via_register", False), "buckets": self.buckets,
                 "labels": [{"key": k, "enum": (self.enums[ei][0] if ei is not None else None), "values": vals} for k, ei, vals in self.labels], "vector_label_order": self.perm}
 
 
